@@ -132,12 +132,12 @@ def check_bracket(rep, db, f, inst, kind):
 
 
 def scope_exit_shape(db, f):
-    """(flag field, function field, armed value) of the scope guard class f belongs to - from the record (the bool member is the
-    flag, the other member the function) and from the destructor (the flag value under which the function runs); no member name
-    or polarity is assumed."""
+    """(flag field, function field, armed) of the scope guard class f belongs to - from the record (the bool / enum / integer member
+    is the flag, the other member the function) and from the destructor (the flag test under which the function runs: armed is
+    ("==", k) or ("!=", k)); no member name, flag type or polarity is assumed."""
     rec = db.rec_by_id.get(f.get("rid")) or {}
-    flags = [fl["n"] for fl in rec.get("fields", []) if (fl["t"] or {}).get("k") == "bool"]
-    funcs = [fl["n"] for fl in rec.get("fields", []) if (fl["t"] or {}).get("k") != "bool"]
+    flags = [fl["n"] for fl in rec.get("fields", []) if (fl["t"] or {}).get("k") in ("bool", "enum", "int")]
+    funcs = [fl["n"] for fl in rec.get("fields", []) if (fl["t"] or {}).get("k") not in ("bool", "enum", "int")]
     if len(flags) != 1 or len(funcs) != 1:
         return None
     F, G = flags[0], funcs[0]
@@ -151,17 +151,25 @@ def scope_exit_shape(db, f):
             for p in Engine(db, no_inline=_NOINL[key]).run(dt):
                 runs = [e for e in p.events if e.kind == "CALL" and e.c is not None and q.mentions(e.c, lambda x: x == ("fld", THIS_OBJ, G))]
                 if runs:
-                    conds = q.conds_before(p, p.events.index(runs[0]))
-                    if ("cmp", "!=", flag, C(0)) in conds:
-                        armed = 1
-                    elif ("cmp", "==", flag, C(0)) in conds:
-                        armed = 0
+                    conds = q.resolve(q.conds_before(p, p.events.index(runs[0])))
+                    for c in conds:
+                        if c[0] == "cmp" and c[1] in ("==", "!=") and c[2] == flag and c[3][0] == "c":
+                            armed = (c[1], c[3][1])
+                            if c[1] == "==":
+                                break
         _ARMED[key] = armed
     return F, G, _ARMED[key]
 
 
 _ARMED = {}
 _NOINL = {}     # the exit function's call operator is kept as a call (a named functor would otherwise be inlined and leave no call event)
+
+
+def _is_armed(A, v):
+    """does the constant flag value v arm the guard?  None when v is not a constant"""
+    if not (isinstance(v, tuple) and v[:1] == ("c",)):
+        return None
+    return (v[1] == A[1]) if A[0] == "==" else (v[1] != A[1])
 
 
 def check_scope_exit(rep, db, f, inst):
@@ -174,19 +182,23 @@ def check_scope_exit(rep, db, f, inst):
         return False
     F, G, A = shape
     flag = ("rd", ("fld", THIS_OBJ, F))
-    armed_c = ("cmp", "!=" if A else "==", flag, C(0))
-    disarmed_c = ("cmp", "==" if A else "!=", flag, C(0))
+    armed_c = ("cmp", A[0], flag, C(A[1]))
+    disarmed_c = ("cmp", "!=" if A[0] == "==" else "==", flag, C(A[1]))
     if f.get("kind") == "dtor":
         ps = Engine(db, no_inline=_NOINL.get((id(db), f.get("rid")), set())).run(f)
         ok = True
         saw_run = False
         for p in ps:
-            conds = q.conds_before(p, len(p.events))
+            conds = q.resolve(q.conds_before(p, len(p.events)))
             runs = [e for e in p.events if e.kind == "CALL" and e.c is not None and q.mentions(e.c, lambda x: x == ("fld", THIS_OBJ, G))]
-            if armed_c in conds:
+            # the flag is a known constant on this path (a switch / enum comparison): is that value the armed one?
+            eqs = [c for c in conds if c[0] == "cmp" and c[1] == "==" and c[2] == flag and c[3][0] == "c"]
+            is_armed = armed_c in conds or any(_is_armed(A, c[3]) for c in eqs)
+            is_disarmed = disarmed_c in conds or any(_is_armed(A, c[3]) is False for c in eqs)
+            if is_armed:
                 saw_run = saw_run or len(runs) == 1
                 ok = ok and len(runs) == 1
-            elif disarmed_c in conds:
+            elif is_disarmed:
                 ok = ok and not runs
             else:
                 ok = False
@@ -203,13 +215,13 @@ def check_scope_exit(rep, db, f, inst):
             st = {e.a[2]: e.b for e in p.events if e.kind == "STORE" and e.a[0] == "fld" and e.a[1] == THIS_OBJ}
             ot = {e.a[2]: e.b for e in p.events if e.kind == "STORE" and e.a[0] == "fld" and e.a[1] == other}
             if (pt.get("rn") or "").startswith(((db.rec_by_id.get(f.get("rid")) or {}).get("n") or "rlbox::detail::scope_exit")):
-                if st.get(F) != ("rd", ("fld", other, F)) or ot.get(F) != C(0 if A else 1):
+                if st.get(F) != ("rd", ("fld", other, F)) or _is_armed(A, ot.get(F)) is not False:
                     rep.violation(rule, site(f) + " [move]", "moving a scope guard must arm the destination iff the source was armed and disarm the source (got this.%s=%s, source.%s=%s)" % (
                         F, fmt(st.get(F)) if F in st else None, F, fmt(ot.get(F)) if F in ot else "unchanged"), f["loc"], inst)
                     return True
                 rep.ok(rule, site(f) + " [move]", "destination armed iff source was; source disarmed", inst)
             else:
-                if st.get(F) != C(1 if A else 0):
+                if _is_armed(A, st.get(F)) is not True:
                     rep.violation(rule, site(f) + " [ctor]", "a freshly constructed scope guard is not armed", f["loc"], inst)
                     return True
                 rep.ok(rule, site(f) + " [ctor]", "constructed armed", inst)
